@@ -433,6 +433,11 @@ func RunScenario(t *testing.T, sc *Scenario, tape []int32) *RunResult {
 			simlog.Add(simlog.Event{Kind: "run.end"})
 			return
 		}
+		if sc.LoadOnly > 0 {
+			rc.runLoads(sc)
+			simlog.Add(simlog.Event{Kind: "run.end"})
+			return
+		}
 		project, err := loadProject(sc, sc.Project, tmp, "pc.yaml")
 		if err != nil {
 			res.LoadErr = err.Error()
